@@ -3,7 +3,7 @@ CONSTANTS
   B = 4
   Conns = {0, 1}
   Versions = {20}
-  ObjUuids = {101, 102}
+  ObjUuids = {101}
   SvcUuids = {201}
   Events = {0}
   Fns = {0}
@@ -13,14 +13,14 @@ CONSTANTS
   Caps <- CapsOne
   MaxCookie = 4
   InqBound = 1
-  Kinds = {"CallFunction", "ClaimChannelEnd", "CreateBusListener", "CreateChannel", "CreateObject", "CreateService", "CreateService2", "DestroyObject", "DestroyService", "StartBusListener", "SubscribeAllEvents", "SubscribeEvent"}
-  Faults = {"ends", "dropped", "sdc", "sdb", "sdi"}
+  Kinds = {"AddBusListenerFilter", "RemoveBusListenerFilter", "ClearBusListenerFilters", "StartBusListener", "StopBusListener", "CreateObject", "DestroyObject"}
+  Faults = {"ends"}
   WrongKinds = {}
-  MsgBudget = 2
+  MsgBudget = 4
   InitSerial = 0
   Senders = {0, 1}
-  PoolKinds = {"live", "dead", "never"}
-  ScriptSel = "svc"
+  PoolKinds = {"live"}
+  ScriptSel = "lstf"
   V0 = 20
   V1 = 20
 
